@@ -50,12 +50,12 @@ pub fn registry() -> Vec<TypeEntry> {
     types![
         u8, u16, u32, u64, i8, i16, i32, i64, usize, isize, bool, (), PhantomData<u64>,
         Option<u8>, Option<Option<bool>>, Option<Vec<u16>>,
-        (u8,), (u8, u16), (bool, u32, String), (u8, Option<u16>, Vec<u8>, i64), (u8, u16, u32, u64, bool),
+        (u8,), (u8, u16), (bool, u32, String), (u8, Option<u16>, Vec<u8>, i64), (u8, u16, u32, u64), (u64, u8, bool, u16), (u8, u16, u32, u64, bool),
         [u8; 0], [u8; 1], [u16; 3], [u8; 32], [Option<bool>; 3], [Vec<u8>; 3], [ToyPt; 3],
         Vec<u8>, Vec<u64>, Vec<bool>, Vec<()>, Vec<Option<u32>>, Vec<Vec<u8>>, Vec<Vec<Vec<u16>>>, Vec<String>,
         Vec<(u8, String)>, Vec<Fr255>, Vec<ToyPt>,
-        VecDeque<u8>, VecDeque<u64>, VecDeque<Vec<bool>>, VecDeque<String>,
-        LinkedList<u8>, LinkedList<u32>, LinkedList<Vec<u8>>,
+        VecDeque<u8>, VecDeque<u64>, VecDeque<Vec<bool>>, VecDeque<String>, VecDeque<()>, VecDeque<PhantomData<u64>>, VecDeque<UnitS>,
+        LinkedList<u8>, LinkedList<u32>, LinkedList<Vec<u8>>, LinkedList<()>, BTreeSet<()>, BTreeMap<u8, ()>, Vec<UnitS>, Option<()>, [(); 3],
         String, Option<String>,
         BTreeMap<u8, u16>, BTreeMap<u32, String>, BTreeMap<String, Vec<u8>>, BTreeMap<u16, BTreeSet<u8>>,
         BTreeMap<u8, BTreeMap<u8, Vec<u8>>>,
